@@ -77,6 +77,39 @@ def _logged_state_reset(self, *a, **k):
 TaskProxy.state_reset = _logged_state_reset
 
 
+# -- additive instrumentation (C20, crash-restart): the harness kills the scheduler at a database commit
+# boundary (the k-th call of WorkflowDatabaseManager.process_queued_ops of a main loop) or inside that
+# transaction (after j statements / right before COMMIT) by raising a BaseException that no handler of
+# cylc-flow catches; see Run.crash_loop / Run.crash_restart.  Unused unless an op asks for it.
+class _CrashNow(BaseException):
+    pass
+
+
+class _DyingConn:
+    """A private-database connection that dies after `left` statements, at the latest right before COMMIT."""
+
+    def __init__(self, conn, left):
+        self._c, self._left = conn, left
+
+    def executemany(self, *a, **k):
+        if self._left <= 0:
+            raise _CrashNow()
+        self._left -= 1
+        return self._c.executemany(*a, **k)
+
+    def execute(self, *a, **k):
+        return self._c.execute(*a, **k)
+
+    def commit(self):
+        raise _CrashNow()
+
+    def rollback(self):
+        return self._c.rollback()
+
+    def close(self):
+        return self._c.close()
+
+
 # ---------------------------------------------------------------------------
 # expression strings -> JSON trees  ("a & (b | c)" / "a and (b or c)")
 
@@ -201,7 +234,21 @@ class Run:
             [int(t.point), t.tdef.name] for t in itasks)
         self._instrument(schd)
         self._instrument_pool(schd)
+        self._instrument_db(schd)
         return schd
+
+    # -- additive instrumentation (C20): count the calls of process_queued_ops (the commit boundaries of the
+    #    private database) per op: observation key 'ncommit'; behaviour unchanged
+    def _instrument_db(self, schd):
+        run = self
+        mgr = schd.workflow_db_mgr
+        orig = mgr.process_queued_ops
+        self.ncommit = getattr(self, 'ncommit', 0)
+
+        def process_queued_ops(*a, **k):
+            run.ncommit += 1
+            return orig(*a, **k)
+        mgr.process_queued_ops = process_queued_ops
 
     # -- additive instrumentation for the C07 / C11S / C03 judges (extra observation keys
     #    'adds', 'removed', 'stall_at'; the model does not predict them; behaviour unchanged)
@@ -394,6 +441,11 @@ class Run:
                 sorted([int(str(k.point)), k.task, k.output, _sat.get(v, 9)] for k, v in pre.items())
                 for pre in t.state.suicide_prerequisites), key=_jkey)]
             for t in schd.pool.get_tasks() if t.state.suicide_prerequisites), key=_jkey)
+        # additive (C20): number of database commit boundaries (process_queued_ops calls) the op went through (up to
+        # the one it died at, for a crashed main loop); whether the op ended with a crash + restart
+        obs['ncommit'] = getattr(self, 'ncommit', 0)
+        self.ncommit = 0
+        obs['crashed'] = bool(self.__dict__.pop('just_crashed', False))
         self.prepped = []
         self.adds, self.removed, self.stall_at = [], [], None
         self.launched = []
@@ -472,7 +524,13 @@ class Run:
         kind = op['op']
         if kind != 'loop':
             self.__dict__.pop('reload_pending_sweep', None)
-        if kind == 'loop':
+        if kind == 'loop' and op.get('crash_at') is not None:
+            # additive (C20): a main loop in which the scheduler dies at its crash_at-th commit boundary
+            await self.crash_loop(op)
+        elif kind == 'crash':
+            # additive (C20): the scheduler dies between two ops; a new Scheduler restarts from the database
+            await self.crash_restart()
+        elif kind == 'loop':
             # additive (C19 policies 'stops' / 'redeliver'): count main loops; a loop that did not shut
             # down has processed the message queue
             self.loops_done = getattr(self, 'loops_done', 0) + 1
@@ -630,6 +688,109 @@ class Run:
         else:
             raise ValueError(kind)
 
+    async def crash_loop(self, op):
+        """additive (C20): op {'op': 'loop', 'crash_at': k, 'crash_stmt': j | null}.  One real main loop in which the
+        scheduler process dies at the k-th (0-based) call of process_queued_ops: before the transaction starts
+        (j null), or inside it after j statements have been executed, at the latest right before COMMIT (j >= 0;
+        the connection is closed without commit, sqlite rolls the transaction back).  If the loop makes fewer calls
+        it is an ordinary main loop.  Written back: op['crashed'].  After the death: Run.crash_restart."""
+        import sqlite3
+        schd = self.schd
+        mgr = schd.workflow_db_mgr
+        k, j = int(op['crash_at']), op.get('crash_stmt')
+        self.loops_done = getattr(self, 'loops_done', 0) + 1
+        counted = mgr.process_queued_ops        # the counting wrapper of _instrument_db
+        calls = {'n': 0}
+
+        def process_queued_ops(*a, **kw):
+            n = calls['n']
+            calls['n'] += 1
+            if n != k:
+                return counted(*a, **kw)
+            if j is None:
+                raise _CrashNow()
+            dao = mgr.pri_dao
+
+            def connect():
+                if dao.conn is None:
+                    dao.conn = _DyingConn(sqlite3.connect(dao.db_file_name, timeout=dao.CONN_TIMEOUT), int(j))
+                elif not isinstance(dao.conn, _DyingConn):
+                    # a connection left open by an earlier SELECT (history look-ups): the same connection dies
+                    dao.conn = _DyingConn(dao.conn, int(j))
+                return dao.conn
+            dao.connect = connect
+            try:
+                counted(*a, **kw)
+            finally:
+                dao.__dict__.pop('connect', None)
+            raise _CrashNow()       # nothing was queued: the (empty) transaction is the boundary itself
+        mgr.process_queued_ops = process_queued_ops
+        crashed = False
+        try:
+            await schd._main_loop()
+            self.unprocessed = []
+        except SchedulerStop as exc:
+            self.stop_reason = str(exc.args[0]) if exc.args else 'stop'
+        except _CrashNow:
+            crashed = True
+        finally:
+            mgr.process_queued_ops = counted
+            schd.pool.__dict__.pop('clock_expire_tasks', None)
+        op['crashed'] = crashed
+        if crashed:
+            self.crash_plan_done, self.crash_tries = getattr(self, 'crash_plan_done', 0) + 1, 0
+            self.ncommit = min(getattr(self, 'ncommit', 0), k)
+            await self.crash_restart()
+
+    async def crash_restart(self):
+        """additive (C20): the scheduler process is gone without any shutdown step (memory lost: pool, queued
+        database operations, message queue); what survives is the private database as committed, and the jobs.
+        Recipe: remove the contact file, close the dead scheduler's database connections, (harness hygiene: stop
+        its server threads), start a new Scheduler on the same run directory.  Then the restart poll
+        (Scheduler.run_scheduler polls every pooled task that is not waiting) is answered from the job table."""
+        from contextlib import suppress
+        from cylc.flow.workflow_files import get_contact_file_path
+        schd = self.schd
+        with suppress(OSError):
+            os.remove(get_contact_file_path(self.id))
+        schd.workflow_db_mgr.on_workflow_shutdown()
+        try:
+            async with asyncio.timeout(10):
+                await schd.server.stop('verif crash')
+        except BaseException:
+            pass
+        # the job-submit callbacks of jobs still in submission die with the scheduler; the jobs themselves live on
+        for job in self.jobs.values():
+            if job['next'] == 0 and job['plan'] and job['plan'][0][0] == 'subres':
+                job['next'] = 1
+        self.unprocessed = []
+        self.poll_reqs = []
+        self.stop_reason = None
+        self.just_crashed = True
+        self.crashes_done = getattr(self, 'crashes_done', 0) + 1
+        await self.start(restart=True)
+        self.crash_polls = self.restart_polls()
+
+    def restart_polls(self):
+        """additive (C20): what the poll of all non-waiting pooled tasks at restart returns, as 'pollres' ops: per
+        polled job (task, current submit number) the custom messages found in its job status file, then its status."""
+        ops = []
+        tasks = sorted(self.schd.pool.get_tasks(), key=lambda t: (int(t.point), t.tdef.name))
+        for t in tasks:
+            if t.state.status == 'waiting':
+                continue
+            key = (int(t.point), t.tdef.name, t.submit_num)
+            job = self.jobs.get(key)
+            if job is None:
+                continue
+            tid = f'{key[0]}/{key[1]}'
+            emitted = job['plan'] if job.get('early_final') else job['plan'][:job['next']]
+            for kind, payload in emitted:
+                if kind == 'msg' and payload not in ('started', 'succeeded', 'failed'):
+                    ops.append({'op': 'pollres', 'task': tid, 'state': payload, 'sn': key[2]})
+            ops.append({'op': 'pollres', 'task': tid, 'state': self.job_truth(key), 'sn': key[2]})
+        return ops
+
     async def reload(self, op):
         """additive (C27): op {'op': 'reload', 'flow': text, 'inloop': bool}.  flow.cylc of the run directory is
         rewritten with the given text and the real commands.reload_workflow runs - directly (commands.run_cmd,
@@ -764,6 +925,9 @@ class Run:
                         self.jobs.pop((int(itask.point), itask.tdef.name, itask.submit_num), None)
             self.unprocessed = []
             return {'op': 'restart'}
+        if getattr(self, 'crash_polls', None):
+            # additive (C20): the results of the restart poll come first
+            return self.crash_polls.pop(0)
         # additive (C19, off by default): policy 'stops' = [[n_loops, mode], ...]: request a stop in the given
         # mode once that many main loops have run (in list order, one stop per life of the scheduler)
         stops = pol.get('stops')
@@ -823,6 +987,24 @@ class Run:
                 key = rng.choice(fin)
                 return {'op': 'msg', 'task': f'{key[0]}/{key[1]}', 'msg': self.jobs[key]['plan'][-1][1],
                         'sn': key[2]}
+        plan = pol.get('crash_plan')
+        if plan:
+            # additive (C20, off unless the policy has a crash_plan; no random draw): crash_plan = [[n, k, j], ...] in
+            # ascending n: the n-th main loop of the run (1-based) dies at its k-th commit boundary (j: inside the
+            # transaction, see crash_loop); k < 0: the scheduler dies between ops, right before that main loop
+            # (a main loop that makes fewer than k+1 commits runs normally; the kill point stays armed for the following
+            # main loops - at most 8 of them - until one gets that far)
+            done = getattr(self, 'crash_plan_done', 0)
+            if done < len(plan) and getattr(self, 'loops_done', 0) + 1 >= plan[done][0]:
+                _n, k, j = plan[done]
+                if k < 0:
+                    self.crash_plan_done = done + 1
+                    return {'op': 'crash'}
+                self.crash_tries = getattr(self, 'crash_tries', 0) + 1
+                if self.crash_tries > 8:
+                    self.crash_plan_done, self.crash_tries = done + 1, 0
+                else:
+                    return {'op': 'loop', 'crash_at': k, 'crash_stmt': j}
         return {'op': 'loop'}
 
     def job_truth(self, key):
@@ -1258,7 +1440,14 @@ def _stop_in_file(text, fcp):
 
 
 async def run_case(case):
-    run = Run(case)
+    if case.get('dt'):
+        # additive (C32): datetime cycling on an hourly grid + virtual clock, see runner_dt.py
+        import runner_dt
+        run = runner_dt.make_run(case)
+    else:
+        if 'runner_dt' in sys.modules:
+            sys.modules['runner_dt'].done()     # back to integer cycling / the real clock
+        run = Run(case)
     try:
         return await run.drive()
     except Exception:
